@@ -7,6 +7,8 @@
 //!    and YAML syntax) x option vectors: the decorated document reads as the same untyped tree as the
 //!    undecorated one (strings under the explicit folded wrapper modulo the documented folding), and
 //!    the typed wrappers read back the bare value.
+//!    Also: literal strings as a field of a mapping that is a sequence element x indent steps; carriage returns under the
+//!    block wrappers (recorded finding).
 use crate::coq;
 use crate::ctx::{Ctx, Rng};
 use crate::tree::Tree;
